@@ -499,12 +499,15 @@ class Run:
             all_keys = set()
             for j in sc["jobs"]:
                 all_keys |= set(j["sp"])
-            if ok and set(keys_in_path) == all_keys and all(set(j["sp"]) == all_keys for j in sc["jobs"]):
+            full = set(keys_in_path) == all_keys and all(set(j["sp"]) == all_keys for j in sc["jobs"])
+            if ok and keys_in_path and (full or all(set(keys_in_path) <= set(j["sp"]) for j in sc["jobs"])):
                 s = sc["path"]
                 for k in keys_in_path:
                     s = s.replace("{" + k + "}", "{" + k + ":" + types[k] + "}")
-                self.probe("schema_string_used")
-                return s, "string"
+                self.probe("schema_string_used" if full else "schema_string_partial")
+                # a schema that names only some of the keys: the state point files disagree with what it
+                # derives, so the import must refuse (or, were it to succeed, reproduce the project)
+                return s, "string" if full else "string-partial"
         return None, "none"
 
     def compare(self, src_raw, dst_raw, ctx):
